@@ -239,6 +239,22 @@ impl Exec {
             }
         }
         self.drain_all();
+        // (d) texts that name a request (a worker's tagged message, a state file's path) must name the one this
+        // connection asked for - checked first: a misrouted answer is not an "out" mismatch
+        for r in 0..self.texts.len() {
+            for t in &self.texts[r] {
+                for other in 0..self.texts.len() {
+                    if other != r
+                        && (t.contains(&format!("r{}p", other + 1)) || t.contains(&format!("state_r{}.", other + 1)))
+                    {
+                        return Err(Stop::Mismatch(
+                            "wrong-client".into(),
+                            json!({"at": at, "r": r + 1, "text": t, "mentions_request": other + 1}),
+                        ));
+                    }
+                }
+            }
+        }
         let outs = seq_of(&obs["out"]);
         for (r, o) in outs.iter().enumerate() {
             let want = strs(o);
@@ -271,19 +287,6 @@ impl Exec {
                     "scatter".into(),
                     json!({"at": at, "worker": w + 1, "spec": want, "impl": have}),
                 ));
-            }
-        }
-        // (d) texts that name a request must name the one this connection asked for
-        for r in 0..self.texts.len() {
-            for t in &self.texts[r] {
-                for other in 0..self.texts.len() {
-                    if other != r && t.contains(&format!("r{}p", other + 1)) {
-                        return Err(Stop::Mismatch(
-                            "wrong-client".into(),
-                            json!({"at": at, "r": r + 1, "text": t, "mentions_request": other + 1}),
-                        ));
-                    }
-                }
             }
         }
         Ok(())
